@@ -592,7 +592,7 @@ PROPS = {
                 outside=["runtime-fatal stack exhaustion on megabyte-deep nesting", "inputs longer than the bound"]),
     "C01": dict(jobs=c01_jobs,
                 level_text="Bounded model checking of encode->decode->encode by symbolic execution of the real encoder and decoder: header fields and every element value symbolic, shapes enumerated within the bound.",
-                level_note="Trusted: go/ssa, engine, z3. Shapes beyond the bound and items above 65,537 elements are outside.",
+                level_note="Trusted: go/ssa, engine, z3. Shapes and sizes beyond the stated bound are outside (bounds and outside_claim in the evidence file).",
                 bounds={"quick": "leaf formats x n<=2 elements; list trees depth<=2 width<=2 over 3 leaf formats; length boundaries 255/256/257", "thorough": "n<=6; trees depth 2 over 6 leaf formats, depth 3 over 1, depth 1 width 2 over all 13 formats with up to 2 elements; boundaries up to 65535/65536"},
                 outside=["items of more than 65,537 elements", "trees beyond the stated depth/width", "messages built by the SML parser (covered by C04/C05 through ToBytes)"]),
     "C02": dict(jobs=c02_jobs,
